@@ -1,5 +1,6 @@
 //! C17: lock-order scenarios.  Each thread role of the platform (host starting a session, a session thread, a session executing
-//! <send>, the timer thread firing a delayed send, the host sending / shutting down, a session exiting with children) is executed
+//! <send>, the timer thread firing a delayed send, the host sending / shutting down, a session exiting with children, a session
+//! executing <invoke>) is executed
 //! in turn under a thread label; engine M records for every acquisition the set of locks held (holder-tracking mutex model).
 //! The cycle query over the recorded edges is done by props/c17.py.
 use crate::h_plat::*;
@@ -71,6 +72,16 @@ pub fn h_c17_scenario() {
     vnd_thread(6);
     let mut f6 = Fsm::new();
     f6.vh_cancelInvoke(&mut dm, &"child".to_string(), 3);
+    // ---- T8: the thread of session 1 executes an <invoke> with inline content: loads, parses and starts a child session
+    vnd_thread(8);
+    let mut inv = Invoke::new();
+    inv.invoke_id = "kid".to_string();
+    inv.doc_id = 77;
+    inv.parent_state_name = "a".to_string();
+    inv.type_name = Data::String("scxml".to_string());
+    inv.content = Some(CommonContent { content: Some("<scxml version=\"1.0\" datamodel=\"null\" initial=\"c\"><state id=\"c\"/></scxml>".to_string()), content_expr: None });
+    let mut f8 = Fsm::new();
+    f8.vh_invoke(&mut dm, 2, &inv);
     // ---- T7: host shutdown
     vnd_thread(7);
     let mut ex2 = t.ex.clone();
